@@ -202,8 +202,14 @@ class Run:
                 st.deleteObject(oid, cur[0] if cur else z64, t)
                 nstore += 1
             self.nstore = nstore
+            if kind not in ('io', 'finish-io'):
+                # calls with a transaction other than the one in flight:
+                # rejected, and the one in flight is not disturbed
+                d.op_wrong({'o': 1})
             phase = 'vote'
             st.tpc_vote(t)
+            if kind not in ('io', 'finish-io'):
+                d.op_wrong({'o': 2})
             self.raw_ops = fs.nraw - n0
             # other threads keep reading while the transaction is in
             # flight: pooled read handles may read ahead into its bytes
